@@ -2,7 +2,7 @@
 Helper lemmas of C13 (encoder discrete logic).
 -/
 import DdsModel.Enc13
-import DdsModel.Proofs.Bc
+import DdsModel.Proofs.BcPixels
 namespace Dds.Enc13
 open Dds Dds.Bc
 
@@ -94,5 +94,97 @@ theorem alphaFold_testBit (alphas : List Nat) : ∀ n, n ≤ 16 → ∀ i,
           | false => rfl
           | true => exact absurd (Nat.testBit_one_eq_true_iff_self_eq_zero.mp hb) hne
         cases h : opaque8 (alphas.getD n 0) <;> simp [hlt, hnl, hge, h1]
+
+/-- a block given as its list of bytes -/
+def blkOf (l : List Nat) : Nat → Nat := fun i => l.getD i 0
+
+
+theorem le16_withIndexes (e : C565 × C565) (idx : Nat) (pre : List Nat) :
+    le16 (blkOf (pre ++ withIndexes e idx)) pre.length = e.1.toU16 ∧
+    le16 (blkOf (pre ++ withIndexes e idx)) (pre.length + 2) = e.2.toU16 := by
+  unfold le16 blkOf withIndexes
+  simp only [List.getD_eq_getElem?_getD]
+  rw [List.getElem?_append_right (by omega), List.getElem?_append_right (by omega),
+    List.getElem?_append_right (by omega), List.getElem?_append_right (by omega)]
+  have a0 : pre.length - pre.length = 0 := by omega
+  have a1 : pre.length + 1 - pre.length = 1 := by omega
+  have a2 : pre.length + 2 - pre.length = 2 := by omega
+  have a3 : pre.length + 2 + 1 - pre.length = 3 := by omega
+  rw [a0, a1, a2, a3]
+  simp only [List.getElem?_cons_zero, List.getElem?_cons_succ, Option.getD_some]
+  omega
+
+
+theorem alphaMap_testBit (alphas : List Nat) (hl : alphas.length = 16) (i : Nat) :
+    (alphaMap alphas).testBit i = (decide (i < 16) && decide (alphas.getD i 0 ≥ 128)) := by
+  have h := alphaFold_testBit alphas alphas.length (by omega) i
+  unfold alphaFold at h
+  unfold alphaMap
+  rw [h, hl]
+  congr 1
+  unfold opaque8
+  exact decide_eq_decide.mpr (by omega)
+
+theorem map_all_transparent (alphas : List Nat) (hl : alphas.length = 16)
+    (h : ∀ i, i < 16 → alphas.getD i 0 < 128) : alphaMap alphas = ALL_TRANSPARENT := by
+  apply Nat.eq_of_testBit_eq
+  intro i
+  rw [alphaMap_testBit alphas hl i]
+  by_cases hi : i < 16
+  · have h2 : ¬ alphas.getD i 0 ≥ 128 := by have := h i hi; omega
+    rw [decide_eq_true hi, decide_eq_false h2]; simp [ALL_TRANSPARENT]
+  · rw [decide_eq_false hi]; simp [ALL_TRANSPARENT]
+
+theorem map_all_opaque (alphas : List Nat) (hl : alphas.length = 16)
+    (h : ∀ i, i < 16 → alphas.getD i 0 ≥ 128) : alphaMap alphas = ALL_OPAQUE := by
+  apply Nat.eq_of_testBit_eq
+  intro i
+  rw [alphaMap_testBit alphas hl i, show ALL_OPAQUE = 2 ^ 16 - 1 from rfl, Nat.testBit_two_pow_sub_one]
+  by_cases hi : i < 16
+  · rw [decide_eq_true (h i hi)]; simp
+  · rw [decide_eq_false hi]; simp
+
+
+def dist (a b : Nat) : Nat := if a ≥ b then a - b else b - a
+
+/-- error of the nearest-palette assignment of the value `v` -/
+def nearestErr (pal : List Nat) (v : Nat) : Nat := pal.foldl (fun m x => min m (dist x v)) 256
+
+theorem foldl_min_le (f : Nat → Nat) (l : List Nat) : ∀ init, l.foldl (fun m x => min m (f x)) init ≤ init ∧
+    ∀ x ∈ l, l.foldl (fun m x => min m (f x)) init ≤ f x := by
+  induction l with
+  | nil => intro init; exact ⟨Nat.le_refl _, fun x hx => absurd hx (by simp)⟩
+  | cons a l ih =>
+    intro init
+    have h := ih (min init (f a))
+    refine ⟨Nat.le_trans h.1 (Nat.min_le_left _ _), fun x hx => ?_⟩
+    simp only [List.mem_cons] at hx
+    rcases hx with rfl | hx
+    · exact Nat.le_trans h.1 (Nat.min_le_right _ _)
+    · exact h.2 x hx
+
+/-- the four decoded 8-bit values of one channel of a colour palette with `m`-level endpoints (specification) -/
+def specPalette (four : Bool) (e0 e1 m : Nat) : List Nat := (List.range 4).map fun k => BcSpec.chan8 four k e0 e1 m
+
+/-- the eight decoded 8-bit values of a BC4 UNORM palette (specification) -/
+def specPalette4 (e0 e1 : Nat) : List Nat :=
+  (List.range 8).map fun k => BcSpec.rnd (255 * BcSpec.bc4Entry (decide (e0 > e1)) k e0 e1 255)
+
+
+/-- the interpolation numerator `n = 2·a + b` of the "two thirds" entry reaches every value `0..3·m` -/
+def splitThird (m n : Nat) : Nat × Nat := (min m (n / 2), n - 2 * min m (n / 2))
+
+def greyChk5 (g : Nat) : Bool :=
+  (List.range 94).any fun n5 =>
+    let r := splitThird 31 n5
+    decide (r.1 ≤ 31 ∧ r.2 ≤ 31 ∧ dist (third5 r.1 r.2) g ≤ 1)
+def greyChk6 (g : Nat) : Bool :=
+  (List.range 190).any fun n6 =>
+    let gg := splitThird 63 n6
+    decide (gg.1 ≤ 63 ∧ gg.2 ≤ 63 ∧ dist (third6 gg.1 gg.2) g ≤ 1)
+
+theorem greyChk5_all : ∀ g, g ≤ 255 → greyChk5 g = true := allUpTo greyChk5 255 (by decide +kernel)
+theorem greyChk6_all : ∀ g, g ≤ 255 → greyChk6 g = true := allUpTo greyChk6 255 (by decide +kernel)
+
 
 end Dds.Enc13
